@@ -3,12 +3,13 @@ import json
 import subprocess
 import sys
 
-from . import adjacency, search, scc
+from . import adjacency, search, scc, serde
 
 REGISTRY = {}
 REGISTRY.update(adjacency.CHECKS)
 REGISTRY.update(search.CHECKS)
 REGISTRY.update(scc.CHECKS)
+REGISTRY.update(serde.CHECKS)
 
 
 def replay(pid, path):
